@@ -350,6 +350,28 @@ func (h *Hub) Broadcast(message []byte) {
 	h.broadcast <- message
 }
 
+// enqueueBroadcast queues a message for all connections without ever waiting
+// for the hub. Message handlers run on the hub's own goroutine, the only reader
+// of the broadcast channel: a handler that waited for room in a full channel
+// would wait for itself and stop the hub for good. When the channel is full the
+// message is handed over asynchronously.
+func (h *Hub) enqueueBroadcast(message []byte) {
+	select {
+	case h.broadcast <- message:
+	default:
+		go func() { h.broadcast <- message }()
+	}
+}
+
+// enqueueRoomMessage is enqueueBroadcast for a room message.
+func (h *Hub) enqueueRoomMessage(msg *RoomMessage) {
+	select {
+	case h.broadcastToRoom <- msg:
+	default:
+		go func() { h.broadcastToRoom <- msg }()
+	}
+}
+
 // BroadcastJSON sends a JSON message to all connections
 func (h *Hub) BroadcastJSON(v interface{}) error {
 	msg := NewJSONMessage(v)
